@@ -15,10 +15,19 @@ OffZZ3   == { <<0, 0>>, <<24, 7>>, <<699, 197>> }   \* Window 3: ZX198..ZZ200
 \*                     perm  - <<>> or a permutation of 1..4: the items are ordered by perm[order of use]
 \*                     pad   - extra items nobody needs: "none", "emptyFirst" / "emptyMid" / "emptyLast"
 \*                             (an empty <si/>), "richFirst" (an unused item made of rich-text runs)
-Lay(a, b, p, d) == [rowR |-> a, sstRev |-> b, perm |-> p, pad |-> d]
+\*                     xml   - the SPELLING of workbook.xml, its relationships and of the <c> attributes (r / s / t
+\*                             order, quotes, <c></c>, prefix of the relationships namespace, an ignorable foreign id
+\*                             attribute on <sheet>, comments between entries, XML declaration / BOM); never matters
+SXml(rev, prefix, single, foreign, oc, gaps, decl) ==
+    [rev |-> rev, prefix |-> prefix, single |-> single, foreign |-> foreign, oc |-> oc, gaps |-> gaps, decl |-> decl]
+SXStd == SXml(FALSE, "r", FALSE, FALSE, FALSE, FALSE, "std")
+Lay(a, b, p, d) == [rowR |-> a, sstRev |-> b, perm |-> p, pad |-> d, xml |-> SXStd]
+LayX(l, x) == [l EXCEPT !.xml = x]
 LayAll   == { Lay(a, b, <<>>, "none") : a, b \in BOOLEAN }
+             \cup { LayX(Lay(TRUE, FALSE, <<>>, "none"), SXml(TRUE, "r", FALSE, TRUE, FALSE, TRUE, "bom")),
+                    LayX(Lay(TRUE, TRUE, <<>>, "none"), SXml(FALSE, "rel", TRUE, TRUE, TRUE, FALSE, "none")) }
 LayStd   == { Lay(TRUE, FALSE, <<>>, "none") }
-LayTwo   == { Lay(TRUE, FALSE, <<>>, "none"), Lay(FALSE, TRUE, <<>>, "none") }
+LayTwo   == { Lay(TRUE, FALSE, <<>>, "none"), LayX(Lay(FALSE, TRUE, <<>>, "none"), SXml(TRUE, "ns1", TRUE, TRUE, TRUE, TRUE, "none")) }
 Perms4   == {p \in [1..4 -> 1..4] : \A i, j \in 1..4 : (p[i] = p[j]) => i = j}
 \* shared-string focus: every order of up to 4 items x every padding
 LaySst   == { Lay(TRUE, FALSE, p, d) : p \in Perms4, d \in {"none", "emptyFirst", "emptyMid", "emptyLast", "richFirst"} }
@@ -86,7 +95,7 @@ SheetOut(sh) ==
      covered |-> {[c |-> p[1], r |-> p[2]] : p \in CoveredSet(sh)},
      bounds  |-> Bounds(sh)]
 
-Case == [off |-> off, rot |-> rot, rowR |-> lay.rowR, sstRev |-> lay.sstRev, perm |-> lay.perm, pad |-> lay.pad, ncells |-> nv,
+Case == [off |-> off, rot |-> rot, rowR |-> lay.rowR, sstRev |-> lay.sstRev, perm |-> lay.perm, pad |-> lay.pad, xml |-> lay.xml, ncells |-> nv,
          sst |-> SST, sheets |-> [sh \in 1..cur |-> SheetOut(sh)]]
 
 Emit == (items[cur] # <<>>) => PrintT(ToJson(Case))
